@@ -445,27 +445,106 @@ Section Cbs.
     - f_equal. apply IH. intros y Hy. apply H. exact Hy.
   Qed.
 
+  (* ---- when substitute_loop_indexes changes nothing ---- *)
+  Definition idxfree_pe (e : pelem) : bool := match e with PIdxVar _ => false | _ => true end.
+  Definition idxfree_p (p : param) : bool := match p with PPath _ l => forallb idxfree_pe l | _ => true end.
+  Definition idxfree (ps : list param) : bool := forallb idxfree_p ps.
+  Definition plain (d : list (lkey * cval)) : Prop := Forall (fun kv => exists n, snd kv = CInt n) d.
+  (* the parameters of [a] have nothing to substitute in the state [s] *)
+  Definition sub_ok (s : NS) (a : api) : Prop :=
+    forall ci c d, a_ctx a = Some ci -> nth_error (ns_apis s) ci = Some c ->
+                   dict_get ident_eqb (a_uuid c) (ns_counters s) = Some d ->
+                   plain d /\ (d = [] \/ idxfree (a_src a) = true).
+
+  Lemma subst_path_id : forall cur raised l, cur = [] \/ forallb idxfree_pe l = true ->
+      subst_path cur raised l = (l, cur, raised).
+  Proof.
+    intros cur raised l. revert cur raised. induction l as [|e r IH]; intros cur raised H; [reflexivity|].
+    cbn [subst_path].
+    assert (E1 : subst_one cur raised e = (e, cur, raised)).
+    { destruct H as [->|H]; [destruct e; reflexivity|].
+      cbn [forallb] in H. apply andb_prop in H. destruct H as [H _]. destruct e; try reflexivity. discriminate H. }
+    rewrite E1. rewrite IH; [reflexivity|].
+    destruct H as [H|H]; [left; exact H|right]. cbn [forallb] in H. apply andb_prop in H. apply H.
+  Qed.
+
+  Lemma subst_all_id : forall cur raised ps, cur = [] \/ idxfree ps = true ->
+      subst_all cur raised ps = (ps, cur).
+  Proof.
+    intros cur raised ps. revert cur raised. induction ps as [|p r IH]; intros cur raised H; [reflexivity|].
+    assert (Hr : cur = [] \/ idxfree r = true).
+    { destruct H as [H|H]; [left; exact H|right]. unfold idxfree in H. cbn [forallb] in H. apply andb_prop in H. apply H. }
+    destruct p as [v|v l|sn j]; cbn [subst_all]; try (rewrite (IH cur raised Hr); reflexivity).
+    rewrite subst_path_id.
+    - rewrite (IH cur raised Hr). reflexivity.
+    - destruct H as [H|H]; [left; exact H|right]. unfold idxfree in H. cbn [forallb idxfree_p] in H.
+      apply andb_prop in H. apply H.
+  Qed.
+
+  Lemma ident_eqb_eq : forall a b, ident_eqb a b = true -> a = b.
+  Proof. intros [i|i] [j|j] H; cbn [ident_eqb] in H; try discriminate H; apply Nat.eqb_eq in H; subst; reflexivity. Qed.
+  Lemma ident_eqb_refl : forall a, ident_eqb a a = true.
+  Proof. intros [i|i]; cbn [ident_eqb]; apply Nat.eqb_refl. Qed.
+
+  Lemma dict_set_same : forall (V : Type) u (d : V) l,
+      dict_get ident_eqb u l = Some d -> dict_set ident_eqb u d l = l.
+  Proof.
+    intros V u d. induction l as [|[k v] r IH]; intros H; cbn [dict_get] in H; [discriminate H|].
+    cbn [dict_set]. destruct (ident_eqb u k) eqn:E.
+    - apply ident_eqb_eq in E. inversion H; subst. reflexivity.
+    - rewrite (IH H). reflexivity.
+  Qed.
+
+  Lemma plain_map_id : forall (cur' : list (name * cval)) d, plain d ->
+      map (fun kv : lkey * cval =>
+             match fst kv, snd kv with
+             | KVar v, CPar _ => match dict_get Nat.eqb v cur' with
+                                 | Some (CPar z) => (fst kv, CPar z)
+                                 | _ => kv
+                                 end
+             | _, _ => kv
+             end) d = d.
+  Proof.
+    intros cur' d H. induction H as [|[k v] r (n & Hn) Hr IH]; [reflexivity|].
+    cbn [map]. rewrite IH. cbn [fst snd] in *. subst v. destruct k; reflexivity.
+  Qed.
+
   Lemma subst_loop_noop : forall ai s a,
       nth_error (ns_apis s) ai = Some a ->
       (forall ci, a_ctx a = Some ci -> exists c, nth_error (ns_apis s) ci = Some c) ->
-      ns_counters s = [] ->
+      a_params a = a_src a -> sub_ok s a ->
       substitute_loop_indexes tasks ai s = Ok (tt, s).
   Proof.
-    intros ai s a Ha Hc Hn. unfold substitute_loop_indexes. unfold nbind at 1. unfold get_api at 1. rewrite Ha.
+    intros ai s a Ha Hc Hps Hn. unfold substitute_loop_indexes. unfold nbind at 1. unfold get_api at 1. rewrite Ha.
     destruct (a_ctx a) as [ci|] eqn:E; [|reflexivity].
     destruct (Hc ci eq_refl) as [c Hci]. unfold nbind at 1. unfold get_api at 1. rewrite Hci.
-    unfold nbind at 1. unfold nget at 1. rewrite Hn. reflexivity.
+    unfold nbind at 1. unfold nget at 1.
+    destruct (dict_get ident_eqb (a_uuid c) (ns_counters s)) as [d|] eqn:Ed; [|reflexivity].
+    destruct (Hn ci c d E Hci Ed) as [Hpl Hfree].
+    rewrite Hps.
+    rewrite (subst_all_id (current_counters' tasks d) [] (a_src a)).
+    - rewrite plain_map_id by exact Hpl.
+      unfold nbind, set_api, nmod. f_equal. f_equal.
+      change (ns_counters (s <| ns_apis := upd ai (with_params (a_src a)) (ns_apis s) |>)) with (ns_counters s).
+      rewrite (dict_set_same _ _ _ _ Ed).
+      rewrite <- Hps.
+      rewrite (upd_same _ (with_params (a_params a)) (ns_apis s) ai a Ha (with_params_same a)).
+      destruct s; reflexivity.
+    - destruct Hfree as [->|Hf]; [left; reflexivity|right; exact Hf].
   Qed.
+
+  Lemma sub_ok_nil : forall s a, ns_counters s = [] -> sub_ok s a.
+  Proof. intros s a H ci c d _ _ Hd. rewrite H in Hd. discriminate Hd. Qed.
 
   Lemma on_task_started_loop : forall f ai s a,
       ls_ok (ns_ls s) -> ns_test_ids s = true ->
       nth_error (ns_apis s) ai = Some a -> a_in_loop a = true -> a_params a = a_src a ->
       (forall ci, a_ctx a = Some ci -> exists c, nth_error (ns_apis s) ci = Some c) ->
-      ns_counters s = [] ->
+      (forall ci, a_ctx a = Some ci -> ci <> ai) -> sub_ok s a ->
       on_task_started tasks env (S (S (S f))) ai s
       = Ok (tt, notified TS (with_uuid (ITest (ns_tid s)) a) false (ts_pre ai s)).
   Proof.
-    intros f ai s a Hls Hti Ha Hloop Hps Hctx Hcn.
+    intros f ai s a Hls Hti Ha Hloop Hps Hctx Hne Hcn.
     rewrite on_task_started_S. unfold nbind at 1. unfold get_api at 1. rewrite Ha.
     unfold nbind at 1. unfold nget at 1. rewrite Hloop.
     unfold nbind at 1. unfold nbind at 1. unfold nbind at 1. unfold new_test_or_uuid.
@@ -491,10 +570,16 @@ Section Cbs.
     - rewrite Hs1. apply notify_user_frag; [exact Hls|rewrite <- Hs1; exact Ha1].
     - intros ci Hci. cbn [with_uuid a_ctx] in Hci. destruct (Hctx ci Hci) as [c Hc].
       rewrite Hs1. unfold ts_pre. cbn [ns_apis set]. change (ns_apis (s <| ns_tid := S (ns_tid s) |>)) with (ns_apis s).
-      destruct (Nat.eq_dec ai ci) as [->|Hne].
+      destruct (Nat.eq_dec ai ci) as [->|Hne'].
       + eexists. apply nth_error_upd_eq. exact Hc.
-      + exists c. rewrite nth_error_upd_neq by exact Hne. exact Hc.
-    - rewrite Hs1. exact Hcn.
+      + exists c. rewrite nth_error_upd_neq by exact Hne'. exact Hc.
+    - cbn [with_uuid a_params a_src]. exact Hps.
+    - intros ci c d Hci Hc Hd. cbn [with_uuid a_ctx a_src] in *.
+      assert (Hc' : nth_error (ns_apis s) ci = Some c).
+      { rewrite Hs1 in Hc. unfold ts_pre in Hc. cbn [ns_apis set] in Hc.
+        change (ns_apis (s <| ns_tid := S (ns_tid s) |>)) with (ns_apis s) in Hc.
+        rewrite nth_error_upd_neq in Hc; [exact Hc|]. intros ->. exact (Hne _ Hci eq_refl). }
+      apply (Hcn ci c d Hci Hc'). rewrite Hs1 in Hd. exact Hd.
   Qed.
 
   (* the service callback draws a uuid4 first, even in test-id mode *)
@@ -504,12 +589,12 @@ Section Cbs.
       ls_ok (ns_ls s) -> ns_test_ids s = true ->
       nth_error (ns_apis s) ai = Some a -> a_in_loop a = true -> a_params a = a_src a ->
       (forall ci, a_ctx a = Some ci -> exists c, nth_error (ns_apis s) ci = Some c) ->
-      ns_counters s = [] ->
+      (forall ci, a_ctx a = Some ci -> ci <> ai) -> sub_ok s a ->
       dict_get ident_eqb (a_uuid a) (ns_place_dict s) = Some p ->
       on_service_started tasks env (S (S (S f))) ai s
       = Ok (tt, notified SS (with_uuid (ITest (ns_sid s)) a) false (ss_pre_loop ai p s)).
   Proof.
-    intros f ai s a p Hls Hti Ha Hloop Hps Hctx Hcn Hd.
+    intros f ai s a p Hls Hti Ha Hloop Hps Hctx Hne Hcn Hd.
     rewrite on_service_started_S. unfold nbind at 1. unfold get_api at 1. rewrite Ha.
     unfold nbind at 1. unfold nget at 1. cbv zeta. rewrite Hloop, Hti.
     unfold nbind at 1. unfold nbind at 1. unfold fresh_uuid at 1.
@@ -544,17 +629,22 @@ Section Cbs.
       unfold ss_pre_loop, ss_pre. cbn [ns_apis set]. apply nth_error_upd_eq. exact Ha.
     - intros ci Hci. cbn [with_uuid a_ctx] in Hci. destruct (Hctx ci Hci) as [c Hc].
       unfold s1. cbn [ns_apis set].
-      destruct (Nat.eq_dec ai ci) as [->|Hne].
+      destruct (Nat.eq_dec ai ci) as [->|Hne'].
       + eexists. apply nth_error_upd_eq. exact Hc.
-      + exists c. rewrite nth_error_upd_neq by exact Hne. exact Hc.
-    - exact Hcn.
+      + exists c. rewrite nth_error_upd_neq by exact Hne'. exact Hc.
+    - cbn [with_uuid a_params a_src]. exact Hps.
+    - intros ci c d Hci Hc Hd'. cbn [with_uuid a_ctx a_src] in *.
+      assert (Hc' : nth_error (ns_apis s) ci = Some c).
+      { unfold s1 in Hc. cbn [ns_apis set] in Hc.
+        rewrite nth_error_upd_neq in Hc; [exact Hc|]. intros ->. exact (Hne _ Hci eq_refl). }
+      apply (Hcn ci c d Hci Hc'). exact Hd'.
   Qed.
 
   Lemma run_cb_TS_loop : forall f ai s a,
       ls_ok (ns_ls s) -> ns_test_ids s = true ->
       nth_error (ns_apis s) ai = Some a -> a_in_loop a = true -> a_params a = a_src a ->
       (forall ci, a_ctx a = Some ci -> exists c, nth_error (ns_apis s) ci = Some c) ->
-      ns_counters s = [] ->
+      (forall ci, a_ctx a = Some ci -> ci <> ai) -> sub_ok s a ->
       run_cb tasks env (S (S (S (S f)))) (CbTS ai) s
       = Ok (tt, notified TS (with_uuid (ITest (ns_tid s)) a) false (ts_pre ai s)).
   Proof. intros. rewrite run_cb_S. apply on_task_started_loop; assumption. Qed.
@@ -563,7 +653,7 @@ Section Cbs.
       ls_ok (ns_ls s) -> ns_test_ids s = true ->
       nth_error (ns_apis s) ai = Some a -> a_in_loop a = true -> a_params a = a_src a ->
       (forall ci, a_ctx a = Some ci -> exists c, nth_error (ns_apis s) ci = Some c) ->
-      ns_counters s = [] ->
+      (forall ci, a_ctx a = Some ci -> ci <> ai) -> sub_ok s a ->
       dict_get ident_eqb (a_uuid a) (ns_place_dict s) = Some p ->
       run_cb tasks env (S (S (S (S f)))) (CbSS ai) s
       = Ok (tt, notified SS (with_uuid (ITest (ns_sid s)) a) false (ss_pre_loop ai p s)).
@@ -1031,5 +1121,82 @@ Section CondCb.
       assert (Hx := Hf0 f ltac:(lia)).
       match goal with |- match ?X with _ => _ end = _ => generalize (Hx : X = Ok (true, s')); generalize X end.
       intros r Hr. rewrite Hr. reflexivity.
+  Qed.
+
+  (* ---- the counting-loop callback: count, read the limit, then a nested fire_event ---- *)
+  Lemma run_cb_S_count : forall f key lim pt pf ctx,
+      run_cb tasks env (S f) (CbCount key lim pt pf ctx) =
+      (cx <~ get_api ctx ;;
+       s <~ nget ;;
+       let u := a_uuid cx in
+       let d := counters_of u s in
+       let cnt := match dict_get lkey_eqb (KLoop key) d with
+                  | None => 0
+                  | Some (CInt n) => S n
+                  | Some (CPar _) => 0
+                  end in
+       set_counters u (dict_set lkey_eqb (KLoop key) (CInt cnt) d) ;;~
+       l <~ get_loop_limit env lim ctx ;;
+       if Qlt_bool (inject_Z (Z.of_nat cnt)) l
+       then
+         nmod (fun s => s <| ns_awaited := ns_awaited s ++ [EvSetPlace pt] |>) ;;~
+         sched_fire_event tasks env f (EvSetPlace pt) ;;~ nret tt
+       else
+         s <~ nget ;;
+         set_counters u (dict_del lkey_eqb (KLoop key) (counters_of u s)) ;;~
+         nmod (fun s => s <| ns_awaited := ns_awaited s ++ [EvSetPlace pf] |>) ;;~
+         sched_fire_event tasks env f (EvSetPlace pf) ;;~ nret tt)%net.
+  Proof. reflexivity. Qed.
+
+  Definition count_next (key : site) (d : list (lkey * cval)) : nat :=
+    match dict_get lkey_eqb (KLoop key) d with
+    | None => 0
+    | Some (CInt n) => S n
+    | Some (CPar _) => 0
+    end.
+  Definition set_cnt (u : ident) (d : list (lkey * cval)) (s : NS) : NS :=
+    s <| ns_counters := dict_set ident_eqb u d (ns_counters s) |>.
+
+  Lemma RunCb_Count : forall key lim pt pf ctx s c l s2 s',
+      nth_error (ns_apis s) ctx = Some c ->
+      let u := a_uuid c in
+      let cnt := count_next key (counters_of u s) in
+      get_loop_limit env lim ctx (set_cnt u (dict_set lkey_eqb (KLoop key) (CInt cnt) (counters_of u s)) s) = Ok (l, s2) ->
+      let b := Qlt_bool (inject_Z (Z.of_nat cnt)) l in
+      let s3 := if b then s2 else set_cnt u (dict_del lkey_eqb (KLoop key) (counters_of u s2)) s2 in
+      existsb (event_eqb (EvSetPlace (if b then pt else pf))) (ns_awaited s3) = false ->
+      has_place s3 (if b then pt else pf) = true ->
+      EvalTo tasks env (placed (if b then pt else pf) s3) s' ->
+      RunCb tasks env (CbCount key lim pt pf ctx) s s'.
+  Proof.
+    intros key lim pt pf ctx s c l s2 s' Hc u cnt Hlim b s3 Hnaw Hhas Hev.
+    set (p := if b then pt else pf) in *. set (ev := EvSetPlace p).
+    destruct (remove_first_snoc ev (ns_awaited s3) (Nat.eqb_refl p) Hnaw) as [Hrem Hex].
+    destruct (fire_event_to tasks env ev (s3 <| ns_awaited := ns_awaited s3 ++ [ev] |>) (ns_awaited s3) p s') as [f0 Hf0].
+    - exact Hex.
+    - exact Hrem.
+    - reflexivity.
+    - exact Hhas.
+    - assert (E : (s3 <| ns_awaited := ns_awaited s3 ++ [ev] |>) <| ns_awaited := ns_awaited s3 |> = s3) by (destruct s3; reflexivity).
+      rewrite E. exact Hev.
+    - exists (S f0). intros f Hf. destruct f as [|f]; [lia|]. rewrite run_cb_S_count.
+      unfold nbind at 1. unfold get_api at 1. rewrite Hc.
+      unfold nbind at 1. unfold nget at 1. cbv zeta.
+      fold u. fold (count_next key (counters_of u s)). fold cnt.
+      unfold nbind at 1. unfold set_counters at 1. unfold nmod at 1.
+      fold (set_cnt u (dict_set lkey_eqb (KLoop key) (CInt cnt) (counters_of u s)) s).
+      unfold nbind at 1. rewrite Hlim. fold b.
+      assert (Hx := Hf0 f ltac:(lia)).
+      clear Hnaw Hhas Hev Hrem Hex Hf0. unfold ev, p, s3 in Hx. clear ev p s3.
+      destruct b.
+      + unfold nbind at 1. unfold nmod at 1. unfold nbind at 1.
+        match goal with |- match ?X with _ => _ end = _ => generalize (Hx : X = Ok (true, s')); generalize X end.
+        intros r Hr. rewrite Hr. reflexivity.
+      + unfold nbind at 1. unfold nget at 1.
+        unfold nbind at 1. unfold set_counters at 1. unfold nmod at 1.
+        fold (set_cnt u (dict_del lkey_eqb (KLoop key) (counters_of u s2)) s2).
+        unfold nbind at 1. unfold nmod at 1. unfold nbind at 1.
+        match goal with |- match ?X with _ => _ end = _ => generalize (Hx : X = Ok (true, s')); generalize X end.
+        intros r Hr. rewrite Hr. reflexivity.
   Qed.
 End CondCb.
